@@ -219,6 +219,12 @@ def differential(a: pt.Tables, b: pt.Tables, L: int) -> Tuple[int, List[Tuple[st
 
     classes, _ = c17.char_classes(a)
     reps = [r for _, _, r in classes] + ["m", "5", "²"]
+    # the embedded runtime is code, not data: it may treat single characters specially (line and
+    # column bookkeeping looks at newlines, tabs, ...), so every member of a small class is tried,
+    # not only its representative
+    for _, ranges, _ in classes:
+        if sum(hi - lo + 1 for lo, hi in ranges) <= 8:
+            reps += [chr(c) for lo, hi in ranges for c in range(lo, hi + 1)]
     reps = list(dict.fromkeys(reps))
     shipped, fresh = _parser.Parser(), b.module.Lark_StandAlone()  # type: ignore
 
@@ -246,9 +252,10 @@ def differential(a: pt.Tables, b: pt.Tables, L: int) -> Tuple[int, List[Tuple[st
                     bad.append((text, start))
     # longer structured inputs from token witnesses
     toks = list(WITNESS.values())
+    seps = [" ", "\t", "\n", " \t ", "\r\n", "\x0c"]
     for k in range(4, 7):
-        for w in itertools.islice(itertools.product(toks, repeat=k), 0, 4000):
-            text = " ".join(w)
+        for j, w in enumerate(itertools.islice(itertools.product(toks, repeat=k), 0, 4000)):
+            text = seps[j % len(seps)].join(w)
             for start in a.start:
                 n += 1
                 if run(shipped, text, start) != run(fresh, text, start):
